@@ -31,7 +31,7 @@ def units(tier):
         + [(t, "T4", b["L_T1"]) for t in G.tier4()]
     if tier == "thorough":
         terms += [(t, "T5", b["L_T5"]) for t in G.tier5(False)]
-    terms += [(t, "TC", b["L_T2"]) for t in const_over()]
+    terms += [(t, "TC", b["L_T2"]) for t in const_over()] + [(t, "T4q", b["L_T1"]) for t in G.sequence_twins()]
     for ch in chunks(terms, 16):
         us.append({"kind": "terms", "terms": [[t, tn, L] for t, tn, L in ch]})
     for si in range(len(slots())):
@@ -131,6 +131,22 @@ def compare(t, d, dc, data, kw, tsig, case):
         if bb != ba:
             out.append({"sig": "C04/compiled-build-differs/" + tsig, "case": dict(case, op="build"),
                         "detail": "%s.build(%r): interpreter %s, compiled %s" % (show, va, ba[1].hex(), bb[1].hex() if bb[0] == "ok" else bb)})
+    # the same value with each derived member left to build (omitted from a dict, None in a list): what generated code puts into the
+    # context for later members must be what the interpreter puts there
+    if isinstance(t, list) and t and t[0] != "special":
+        from .c01 import drop_derived
+        try:
+            variants = drop_derived(t, T.denorm(va))[:6]
+        except Exception:
+            variants = []
+        for v2 in variants:
+            ba = do_build(d, v2, kw)
+            if ba[0] != "ok":
+                continue
+            bb = do_build(dc, v2, kw)
+            if bb != ba:
+                out.append({"sig": "C04/compiled-build-differs/derived-omitted/" + tsig, "case": dict(case, op="build"),
+                            "detail": "%s.build(%r): interpreter %s, compiled %s" % (show, v2, ba[1].hex(), bb[1].hex() if bb[0] == "ok" else bb)})
     return ("ok" if not out else "bad"), out
 
 
